@@ -49,7 +49,9 @@ const C = {
   seqAs: { src: '{(t("q3"), lo.x5) as any}', leaves: ['q3', 'lo.x5'], ts: true },
 };
 const C_KEYS = Object.keys(C);
-const HOSTS = { div: { tag: 'div', component: false }, Comp: { tag: 'Comp', component: true }, frag: { tag: '', component: false }, Unbound: { tag: 'Unb', component: true }, ForeignFragment: { tag: 'Fg', component: true, imports: "import { Fragment as Fg } from 'lib';\n" } };
+const HOSTS = { div: { tag: 'div', component: false }, Comp: { tag: 'Comp', component: true }, frag: { tag: '', component: false }, Unbound: { tag: 'Unb', component: true }, ForeignFragment: { tag: 'Fg', component: true, imports: "import { Fragment as Fg } from 'lib';\n" },
+  // a member tag is a component whatever its last segment is called
+  MemberNative: { tag: 'nsx.div', component: true, imports: "const nsx = { div: { __c: 'nsx.div' } };\n" } };
 
 function mkEnv() {
   const trace = [];
